@@ -3,6 +3,10 @@
 import json, os
 root = os.path.dirname(os.path.dirname(os.path.abspath(__file__)))
 CHECKS = [
+ dict(id="C16", level="model_checking", engine="gen (constructed expectation)", design="§5 C16",
+      technique="bounded exhaustive program enumeration against a constructed model: the generator knows the line of every call statement and of the failing statement; every program is run under all configurations and its stack trace compared with the model",
+      text="Call chains of depth 0..4 (thorough 0..6) x 6 failure kinds x 4 call forms x 4 layouts x 3 statement positions x 4 definition styles (top level, nested in the caller, imported source module, failure while the module body runs), plus failing statements at the very first byte of main and of a module; thorough also mixes call forms per level. Each program runs under optimizer on/off x plain/encode-decode x k = 0, 1, 3 prepended blank lines; StackTrace() (outermost first) must equal the constructed line list shifted by k, every position must name its file and lie inside it.",
+      note="Trusted: the generator's line bookkeeping. Columns are not compared."),
  dict(id="C04", level="exploration", engine="gen (differential: original vs decoded vs re-decoded)", design="§5 C04",
       technique="bounded exhaustive program enumeration, differential execution of original, once and twice round-tripped bytecode on every program and input",
       text="The C02/C03 corpora and the C11 jump grammar (x 4 inputs), one program per constant kind/value (every varint and length-prefix boundary, NaN/Inf/-0, negative and maximal chars, non-UTF-8 strings, 300 constants, nested functions), and programs importing builtin-module maps with an attribute of every value type (functions nested in containers, several gob-fallback values), the real strings/time/json/fmt modules and source modules are compiled, encoded, decoded (and again): value, probe log, output, globals, error name+message and stack-trace lines/files must be equal, the decoded bytecode must pass the structural verifier, the original must be untouched, and decoding with a mismatching module map must be an error, never a panic.",
